@@ -182,11 +182,12 @@ def run_cwltool(case: dict) -> dict:
     return res
 
 
-def export_provenance(case: dict, sf: dict) -> dict:
+def export_provenance(case: dict, sf: dict, tag: str = "") -> dict:
     """`streamflow prov <name>` on the private database of the run"""
     base = sf["base"]
-    out = _mk(base, "prov")
+    out = _mk(base, "prov" + tag)
     argv = ["prov", case.get("name", "wf"), "--file", os.path.join(base, "streamflow.yml"), "--outdir", out, "--name", "crate.zip"]
+    argv += list(case.get("prov_args", []))
 
     def go():
         import streamflow.main
@@ -194,11 +195,11 @@ def export_provenance(case: dict, sf: dict) -> dict:
         return streamflow.main.main(argv)
 
     rc, wall = _forked(go, os.path.join(base, "cwd"), {"HOME": os.path.join(base, "home"), "TMPDIR": os.path.join(base, "tmp")},
-                       os.path.join(base, "stdin.txt"), os.path.join(base, "prov-stdout.txt"),
-                       os.path.join(base, "prov-stderr.txt"), case.get("timeout", 120))
+                       os.path.join(base, "stdin.txt"), os.path.join(base, f"prov{tag}-stdout.txt"),
+                       os.path.join(base, f"prov{tag}-stderr.txt"), case.get("timeout", 120))
     path = os.path.join(out, "crate.zip")
     return {"rc": rc, "wall": round(wall, 2), "archive": path if os.path.exists(path) else None,
-            "stderr": "" if rc == 0 else _read(os.path.join(base, "prov-stderr.txt"), 3000)}
+            "stderr": "" if rc == 0 else _read(os.path.join(base, f"prov{tag}-stderr.txt"), 3000)}
 
 
 def run_case(case: dict) -> dict:
@@ -209,6 +210,8 @@ def run_case(case: dict) -> dict:
                  else run_cwltool(case))
     if case.get("prov") and res["sf"]["rc"] == 0:
         res["prov"] = export_provenance(case, res["sf"])
+        if case.get("prov_args_alt"):
+            res["prov_alt"] = export_provenance({**case, "prov_args": case["prov_args_alt"]}, res["sf"], tag="-alt")
     for side in ("sf", "ct"):
         if res[side]["out"] is not None:
             res[side]["norm"] = normalize_output(res[side]["out"])
